@@ -26,8 +26,11 @@ EXPLANATION = (
     "(escaped set, escape octet, XOR constant, flag positions, un-escaping in "
     "every frame-interior state, address/control/payload order), and use CFG "
     "dominance / guard literals for the tailroom test before every msgb_put, "
-    "the overflow reset, the index bounds of dlci_handler[]/dlci_queues[], the "
-    "ascending first-non-empty queue scan, FIFO enqueue/dequeue in msgb.c, and "
+    "the overflow reset, the receive capacity (folded arguments of "
+    "msgb_alloc_headroom in sercomm_alloc_msgb), the index bounds of "
+    "dlci_handler[]/dlci_queues[], the queue scan (walked under both outcomes "
+    "of the dequeue for the first and the generic iteration: ascending from 0, "
+    "stops at the first non-empty queue), FIFO enqueue/dequeue in msgb.c, and "
     "who-may-write scans of the receive buffer.  A statement about all paths of "
     "one step holds for every octet stream and every queueing history.")
 ASSUMPTIONS = [
@@ -244,6 +247,8 @@ class Step:
         return False
 
     def ev(self, e, st, v):
+        """Three-valued truth of a condition for octet v (None = depends on
+        something outside the vocabulary and not assumed on this path)."""
         e = strip(e)
         k = kind(e)
         if k == "UnaryOperator" and e.get("opcode") == "!":
@@ -267,11 +272,35 @@ class Step:
                     self.relational = True
                 va, vb = self.val(a, st, v), self.val(b, st, v)
                 if va is None or vb is None:
-                    return None
+                    return st.assume.get(ctext(e))
                 return {"==": va == vb, "!=": va != vb, "<": va < vb, ">": va > vb,
                         "<=": va <= vb, ">=": va >= vb}[op]
         x = self.val(e, st, v)
-        return None if x is None else bool(x)
+        if x is None:
+            return st.assume.get(ctext(e))
+        return bool(x)
+
+    def residual(self, e, st, v):
+        """(value, expr, pol): value if the condition is decided, else the
+        undecided part: the condition is true iff truth(expr) == pol."""
+        r = self.ev(e, st, v)
+        if r is not None:
+            return r, None, True
+        s = strip(e)
+        k = kind(s)
+        if k == "UnaryOperator" and s.get("opcode") == "!":
+            _, ex, pol = self.residual(kids(s)[0], st, v)
+            return None, ex, not pol
+        if k == "BinaryOperator" and s.get("opcode") in ("&&", "||"):
+            neutral = s.get("opcode") == "&&"
+            a, b = kids(s)
+            ra, ea, pa = self.residual(a, st, v)
+            rb, eb, pb = self.residual(b, st, v)
+            if ra is not None and ra == neutral:
+                return None, eb, pb
+            if rb is not None and rb == neutral:
+                return None, ea, pa
+        return None, s, True
 
     # -- effects of one statement --------------------------------------------
     def node_effects(self, node):
@@ -376,7 +405,11 @@ class Step:
         self.invalidate(st, self.ptr)
 
     # -- walking --------------------------------------------------------------
-    def paths(self, scur, v, assume=()):
+    def paths(self, scur, v, assume=(), max_visits=1, before=None, after=None):
+        """All paths of one call for state value scur and octet v.  A node is
+        walked at most max_visits times per path (then the loop is left at
+        its head, or the path is cut).  before(node, st, n) may return
+        'stop'; after(node, st, n) runs after a statement node."""
         g = self.g
         done = []
 
@@ -385,38 +418,37 @@ class Step:
                 if node is g.exit:
                     done.append(st)
                     return
-                if node.id in seen:
-                    # second visit of a loop head: assume the loop terminates here
+                n = seen.get(node.id, 0)
+                if n >= max_visits:
+                    # loop head seen again: assume the loop terminates here
                     exits = [s for (s, l) in node.succ if node.kind == "cond" and l is False]
                     if exits and ("exit", node.id) not in seen:
                         st.events.append(("loopexit", node.id))
-                        seen = seen | {("exit", node.id)}
+                        seen = dict(seen)
+                        seen[("exit", node.id)] = 1
                         node = exits[0]
                         continue
                     st.events.append(("loopcut", node.id))
                     st.ret = ("loopcut",)
                     done.append(st)
                     return
-                seen = seen | {node.id}
+                seen = dict(seen)
+                seen[node.id] = n + 1
+                if before is not None and before(node, st, n + 1) == "stop":
+                    done.append(st)
+                    return
                 if node.kind == "cond":
                     c = node.cond
-                    r = None
+                    r, ex, pol = None, None, True
                     if c is not None:
                         if has_write(c):
                             raise AnalysisError("%s(): side effect inside the condition `%s` -- unclassifiable" % (
                                 self.fname, ctext(c)))
-                        r = self.ev(c, st, v)
-                        if r is None and self.mentions(c, st):
+                        r, ex, pol = self.residual(c, st, v)
+                        if r is None and self.mentions(ex, st):
                             raise AnalysisError("%s(): condition `%s` mixes the octet/state with other operands -- "
                                                 "unclassifiable" % (self.fname, ctext(c)))
                     labels = [l for (_, l) in node.succ]
-                    if r is None and c is not None:
-                        atom, pol = strip(c), True
-                        while kind(atom) == "UnaryOperator" and atom.get("opcode") == "!":
-                            atom, pol = strip(kids(atom)[0]), not pol
-                        at = ctext(atom)
-                        if at in st.assume:
-                            r = (st.assume[at] == pol)
                     if r is None:
                         if len(set(labels)) == 1:
                             node = node.succ[0][0]
@@ -424,9 +456,12 @@ class Step:
                         for (s, l) in node.succ:
                             s2 = st.copy()
                             if c is not None:
-                                s2.events.append(("fork", node.id, bool(l),
-                                                  frozenset(cliterals(self.tu, c, bool(l)))))
-                                s2.assume[at] = (bool(l) == pol)
+                                truth = (bool(l) == pol)
+                                s2.events.append(("fork", node.id, bool(l), frozenset(cliterals(self.tu, ex, truth))))
+                                atom, ap = strip(ex), truth
+                                while kind(atom) == "UnaryOperator" and atom.get("opcode") == "!":
+                                    atom, ap = strip(kids(atom)[0]), not ap
+                                s2.assume[ctext(atom)] = ap
                             go(s, s2, seen)
                         return
                     nxt = [s for (s, l) in node.succ if bool(l) == bool(r)]
@@ -454,11 +489,13 @@ class Step:
                     continue
                 if node.kind == "stmt":
                     self.apply(node, st)
+                    if after is not None:
+                        after(node, st, n + 1)
                 if not node.succ:
                     raise AnalysisError("%s(): dead end in the CFG" % self.fname)
                 node = node.succ[0][0]
 
-        go(g.entry, St(scur, dict(assume)), frozenset())
+        go(g.entry, St(scur, dict(assume)), {})
         return done
 
     def constants(self):
@@ -1061,6 +1098,74 @@ def r1_bounded_store(L, tu, tag, size, rx):
     L.floor(R, "uses of %s (%s build)" % (RXM, tag), nuse, 5)
 
 
+def fold_with(tu, e, binding):
+    """Constant folding with parameters bound to integers."""
+    v = tu.fold(e)
+    if v is not None:
+        return v
+    e = strip(e, casts=True)
+    i = ref_id(e)
+    if i is not None:
+        return binding.get(i)
+    if kind(e) == "BinaryOperator" and e.get("opcode") in ("+", "-", "*"):
+        a, b = (fold_with(tu, x, binding) for x in kids(e))
+        if a is None or b is None:
+            return None
+        return {"+": a + b, "-": a - b, "*": a * b}[e.get("opcode")]
+    return None
+
+
+def r1_capacity(L, tu, tag, size):
+    """The buffer sercomm_alloc_msgb(SERCOMM_RX_MSG_SIZE) must have room for
+    a payload of that many octets: tailroom = size - headroom of
+    msgb_alloc_headroom(size, headroom), read from the bundled msgb.h."""
+    R = "C06.R1"
+    L.unit(MSGB_H)
+    # semantics of the allocation helpers
+    ah = tu.func("msgb_alloc_headroom")
+    pa = tu.fparams(ah)
+    if len(pa) < 2:
+        raise AnalysisError("msgb_alloc_headroom(): signature changed")
+    al = calls_to(ah, "msgb_alloc")
+    rs = calls_to(ah, "msgb_reserve")
+    if len(al) != 1 or len(rs) != 1:
+        raise AnalysisError("msgb_alloc_headroom(): expected one msgb_alloc and one msgb_reserve call -- unclassifiable")
+    L.fn(MSGB_H, "msgb_alloc_headroom")
+    L.require(R, MSGB_H, "msgb_alloc_headroom", "allocates `size` octets and reserves `headroom` of them in front of the data "
+              "(tailroom = size - headroom)", [pa[0]["name"], pa[1]["name"]],
+              [ctext(call_args(al[0])[0]), ctext(call_args(rs[0])[1])])
+    rv = tu.func("msgb_reserve")
+    pr = tu.fparams(rv)
+    moved = sorted((ctext(e[1]), e[2], ctext(e[3])) for e in effects(tu.body(rv)) if e[0] in ("compound", "store", "incdec"))
+    m = pr[0]["name"]
+    L.fn(MSGB_H, "msgb_reserve")
+    L.require(R, MSGB_H, "msgb_reserve", "moves data and tail forward by the reserved length (head stays)",
+              sorted([("%s->data" % m, "+=", pr[1]["name"]), ("%s->tail" % m, "+=", pr[1]["name"])]), moved)
+    # sercomm_alloc_msgb
+    sa = tu.func("sercomm_alloc_msgb")
+    ps = tu.fparams(sa)
+    calls = calls_to(sa, "msgb_alloc_headroom")
+    if len(ps) != 1 or len(calls) != 1:
+        raise AnalysisError("sercomm_alloc_msgb(): expected one parameter and one msgb_alloc_headroom call -- unclassifiable")
+    L.fn(HDR, "sercomm_alloc_msgb")
+    args = call_args(calls[0])
+    bind = {ps[0].get("id"): size}
+    total, head = fold_with(tu, args[0], bind), fold_with(tu, args[1], bind)
+    if total is None or head is None:
+        raise AnalysisError("sercomm_alloc_msgb(): `%s` / `%s` do not fold for len = %d -- unclassifiable" % (
+            ctext(args[0]), ctext(args[1]), size))
+    L.ob(R, HDR, "sercomm_alloc_msgb", "receive capacity (%s build): the buffer allocated for %d octets has tailroom for a "
+         "payload of that length (every payload shorter than the receive buffer fits before the closing flag)" % (tag, size),
+         "size - headroom >= %d" % size, "%d - %d = %d" % (total, head, total - head), total - head >= size,
+         tu.line(calls[0]))
+    push = {tu.fold(call_args(c)[1]) for c in calls_to(tu.func("sercomm_sendmsg"), "msgb_push")}
+    if len(push) != 1 or None in push:
+        raise AnalysisError("sercomm_sendmsg(): header length pushed is not one constant -- unclassifiable")
+    need = push.pop()
+    L.ob(R, HDR, "sercomm_alloc_msgb", "headroom of a sercomm buffer holds the address and control octets sercomm_sendmsg "
+         "prepends", "headroom >= %d" % need, head, head >= need, tu.line(calls[0]))
+
+
 class TxFacts:
     """esc, xor, esc_state, normal_states, escaped, raw, flag -- extracted from the transmitter table."""
 
@@ -1400,68 +1505,7 @@ def r4_sercomm(L, tu, tag, rx, tx, K, chain):
           if e[0] == "store" and kind(e[1]) == "ArraySubscriptExpr" and ctext(kids(e[1])[0]) == HANDLERS]
     L.require(R, F, "sercomm_register_rx_cb", "the callback is registered under its own DLCI", [(pn[0], pn[1])], st)
     # (e) queue scan
-    f = tu.func(TX_FN)
-    g = tx.g
-    dq = calls_to(f, "msgb_dequeue")
-    L.require(R, F, TX_FN, "msgb_dequeue call sites", 1, len(dq))
-    for c in dq:
-        a = strip(call_args(c)[0], casts=True)
-        sub = strip(kids(a)[0]) if kind(a) == "UnaryOperator" and a.get("opcode") == "&" else None
-        if sub is None or kind(sub) != "ArraySubscriptExpr" or ctext(kids(sub)[0]) != QUEUES:
-            raise AnalysisError("%s(): msgb_dequeue argument `%s` unclassifiable" % (TX_FN, ctext(a)))
-        iv = ctext(kids(sub)[1])
-        ext = array_extent(strip(kids(sub)[0]).get("type", {}).get("qualType"))
-        node = g.node_of(c)
-        loop = g.loop_of(node)
-        if loop is None or kind(loop) != "ForStmt":
-            raise AnalysisError("%s(): queue scan is not a for loop -- unclassifiable" % TX_FN)
-        init, cond, inc = loop["inner"][0], loop["inner"][2], loop["inner"][3]
-        start = None
-        for e in effects(init) if init else []:
-            if e[0] == "store" and ctext(e[1]) == iv:
-                start = tu.fold(e[2])
-            elif e[0] == "decl" and e[1].get("name") == iv and e[2] is not None:
-                start = tu.fold(e[2])
-        if not init:
-            # initialiser hoisted in front of the loop: last store to the index variable dominating the loop
-            for n in g.nodes:
-                if n.kind == "stmt" and n.ast is not None and g.dominates(n, g.by_ast[id(loop)]):
-                    for e in effects(n.ast):
-                        if (e[0] == "store" and ctext(e[1]) == iv) or (e[0] == "decl" and e[1].get("name") == iv and e[2] is not None):
-                            start = tu.fold(e[2])
-        cl = cliterals(tu, cond, True) if cond else set()
-        step = None
-        for e in effects(inc) if inc else []:
-            if e[0] == "incdec" and ctext(e[1]) == iv:
-                step = e[2]
-            elif e[0] == "compound" and ctext(e[1]) == iv and e[2] in ("+=", "-=") and tu.fold(e[3]) is not None:
-                step = tu.fold(e[3]) * (1 if e[2] == "+=" else -1)
-        found = "start %s; while %s; step %s" % (start, sorted(("" if p else "!") + t for t, p in cl), step)
-        if step is None or start is None:
-            raise AnalysisError("%s(): queue scan loop `%s` unclassifiable" % (TX_FN, found))
-        L.ob(R, F, TX_FN, "transmit queues are scanned in ascending DLCI order over the whole array (lower DLCI first)",
-             "start 0; while %s < %d; step +1" % (iv, ext), found,
-             start == 0 and step == 1 and cl == {("%s < %d" % (iv, ext), True)}, tu.line(loop))
-        # where does the result go
-        par = tu.parent.get(id(c))
-        while par is not None and kind(par) in ("ImplicitCastExpr", "ParenExpr", "CStyleCastExpr"):
-            par = tu.parent.get(id(par))
-        dst = ctext(kids(par)[0]) if kind(par) == "BinaryOperator" and par.get("opcode") == "=" else None
-        L.require(R, F, TX_FN, "the dequeued message becomes the message in progress", TXM, dst, line=tu.line(c))
-        incn = g.by_ast.get(id(inc)) if inc else None
-        if incn is None:
-            raise AnalysisError("%s(): queue scan without increment node" % TX_FN)
-        # only tests made after the dequeue count (the idle test in front of the loop reads the same lvalue)
-        lits = set()
-        for (cn, lab) in g.guards(incn):
-            if cn.kind == "cond" and cn.cond is not None and g.dominates(node, cn):
-                lits |= cliterals(tu, cn.cond, bool(lab))
-        L.ob(R, F, TX_FN, "the scan goes on to the next queue only if nothing was dequeued (stops at the first non-empty "
-             "queue)", "!%s tested after the dequeue on the loop's back edge" % TXM,
-             sorted(("" if p else "!") + t for t, p in lits), (TXM, False) in lits and dst == TXM, tu.line(loop))
-        lits = g.guard_lits(node)
-        L.ob(R, F, TX_FN, "a message is dequeued only when no message is in progress", "!%s" % TXM,
-             sorted(("" if p else "!") + t for t, p in lits), (TXM, False) in lits, tu.line(c))
+    r4_queue_scan(L, tu, tx)
     # (f) sercomm_sendmsg
     fn = tu.func("sercomm_sendmsg")
     L.fn(F, "sercomm_sendmsg")
@@ -1487,6 +1531,183 @@ def r4_sercomm(L, tu, tag, rx, tx, K, chain):
               [((pn[1], 2), ((0, "dlci"), (1, "const")))], sorted(hdrs, key=str))
     L.require(R, F, "sercomm_sendmsg", "the message is enqueued once, after the header was written, on the queue indexed "
               "by the DLCI argument", [((("&%s[%s]" % (QUEUES, pn[0]), pn[1]), True),)], sorted(enq, key=str))
+
+
+def r4_queue_scan(L, tu, tx):
+    """Lower DLCI first: decided on the walked paths of the idle part of
+    sercomm_drv_pull, not on where the tests are written.  The k-th
+    execution of the dequeue is followed under both outcomes (NULL / a
+    message); the first iteration has the counter as a constant, the second
+    one (counter opaque after the increment) stands for every later one."""
+    R = "C06.R4"
+    f = tu.func(TX_FN)
+    g = tx.g
+    step = tx.step
+    dq = calls_to(f, "msgb_dequeue")
+    L.require(R, F, TX_FN, "msgb_dequeue call sites", 1, len(dq))
+    if len(dq) != 1:
+        return
+    c = dq[0]
+    a = strip(call_args(c)[0], casts=True)
+    sub = strip(kids(a)[0]) if kind(a) == "UnaryOperator" and a.get("opcode") == "&" else None
+    if sub is None or kind(sub) != "ArraySubscriptExpr" or ctext(kids(sub)[0]) != QUEUES:
+        raise AnalysisError("%s(): msgb_dequeue argument `%s` unclassifiable" % (TX_FN, ctext(a)))
+    ivn = strip(kids(sub)[1], casts=True)
+    iv, ivid = ctext(ivn), ref_id(ivn)
+    if ivid is None or ivid in step.params:
+        raise AnalysisError("%s(): queue index `%s` is not a local counter -- unclassifiable" % (TX_FN, iv))
+    ext = array_extent(strip(kids(sub)[0]).get("type", {}).get("qualType"))
+    D = g.node_of(c)
+    line = tu.line(c)
+    par = tu.parent.get(id(c))
+    while par is not None and kind(par) in ("ImplicitCastExpr", "ParenExpr", "CStyleCastExpr"):
+        par = tu.parent.get(id(par))
+    dst = ctext(kids(par)[0]) if kind(par) == "BinaryOperator" and par.get("opcode") == "=" else None
+    if dst != TXM or D.kind != "stmt":
+        raise AnalysisError("%s(): the result of msgb_dequeue goes to `%s`, not directly to %s -- unclassifiable"
+                            % (TX_FN, dst, TXM))
+    L.require(R, F, TX_FN, "the dequeued message becomes the message in progress", TXM, dst, line=line)
+
+    def walk_scan(outcomes, idle=True):
+        def before(node, st, n):
+            if node is D:
+                if n > len(outcomes):
+                    st.events.append(("again", n))
+                    return "stop"
+                st.events.append(("at", n, st.env.get(ivid)))
+
+        def after(node, st, n):
+            if node is D:
+                st.assume[TXM] = outcomes[n - 1]
+                st.events.append(("got", n, outcomes[n - 1]))
+        return step.paths(0, 0x41, assume={TXM: not idle}, max_visits=len(outcomes) + 2, before=before, after=after)
+
+    def segment(p, k):
+        """events after the k-th dequeue"""
+        for i, e in enumerate(p.events):
+            if e[0] == "got" and e[1] == k:
+                return p.events[i + 1:]
+        return None
+
+    def fork_lits(evs):
+        out = set()
+        for e in evs:
+            if e[0] == "fork":
+                out |= set(e[3])
+        return out
+
+    def counter_writes(evs):
+        out = []
+        for e in evs:
+            if e[0] == "compound" and e[1] == iv:
+                out.append((e[2], e[3][1] if e[3][0] == "const" else None))
+            elif e[0] == "local" and e[1] == iv:
+                out.append(("=", e[2][1] if e[2][0] == "const" else ctext_term(e[2])))
+        return out
+
+    EMPTY = "llist_empty(&%s[%s])" % (QUEUES, iv)
+
+    def truncated(evs):
+        return any(e[0] in ("loopexit", "loopcut") for e in evs)
+
+    def vocabulary(lits, where):
+        """literals the scan may depend on: counter bound, emptiness of the
+        queue under the counter, the message in progress"""
+        bad = sorted(("" if pl else "!") + t for (t, pl) in lits
+                     if not (t.startswith(iv + " < ") or t.endswith(" < " + iv) or t == EMPTY or t == TXM))
+        if bad:
+            raise AnalysisError("%s(): %s depends on %s -- unclassifiable" % (TX_FN, where, bad))
+
+    # message in progress: no dequeue at all
+    busy = [p for p in walk_scan([], idle=False) if any(e[0] == "again" for e in p.events)]
+    L.ob(R, F, TX_FN, "a message is dequeued only when no message is in progress", "msgb_dequeue unreachable while %s is set" % TXM,
+         "reachable" if busy else "unreachable", not busy, line)
+    # start of the scan
+    first = set()
+    for p in walk_scan([False]):
+        at = [e for e in p.events if e[0] == "at" and e[1] == 1]
+        if at:
+            t = at[0][2]
+            pre = p.events[:p.events.index(at[0])]
+            skips = sum(1 for e in pre if e[0] == "fork" and (EMPTY, True) in e[3])
+            cw = counter_writes(pre)
+            if t is not None and t[0] == "const":
+                first.add(t[1])
+            elif skips and cw[:1] and cw[0][0] == "=" and isinstance(cw[0][1], int) and len(cw) == 1 + skips and \
+                    all(w in (("++", 1), ("+=", 1)) for w in cw[1:]):
+                first.add(cw[0][1])       # lower queues were skipped as empty, one increment each
+            elif truncated(pre):
+                continue
+            else:
+                first.add("not constant")
+        elif not truncated(p.events):
+            # no dequeue on this path: every queue was skipped as empty / the counter ran out
+            vocabulary(fork_lits(p.events), "an idle path without dequeue")
+    if "not constant" in first:
+        raise AnalysisError("%s(): first queue index `%s` is not a constant -- unclassifiable" % (TX_FN, iv))
+    # after an empty queue (first and every later iteration)
+    steps, early, overrun = set(), [], []
+    for outcomes in ([False], [False, False]):
+        k = len(outcomes)
+        for p in walk_scan(outcomes):
+            seg = segment(p, k)
+            if seg is None:
+                continue
+            if truncated(seg):
+                continue            # deeper unrolling: covered by the generic (second) iteration
+            cw = counter_writes(seg)
+            lits = fork_lits(seg)
+            vocabulary(lits, "the scan after an empty queue")
+            again = any(e[0] == "again" for e in seg)
+            if again:
+                # queues skipped as empty by llist_empty() advance the counter as well
+                skips = sum(1 for e in seg if e[0] == "fork" and (EMPTY, True) in e[3])
+                if skips and len(cw) == 1 + skips and all(w in (("++", 1), ("+=", 1)) for w in cw):
+                    cw = cw[:1]
+                steps.add(tuple(cw))
+                continue
+            # counter >= K on the way out: !(i < K) or (K-1 < i)
+            bound = [int(t[len(iv) + 3:]) for (t, pl) in lits
+                     if not pl and t.startswith(iv + " < ") and t[len(iv) + 3:].isdigit()]
+            bound += [int(t[:-len(iv) - 3]) + 1 for (t, pl) in lits
+                      if pl and t.endswith(" < " + iv) and t[:-len(iv) - 3].isdigit()]
+            if bound:
+                if max(bound) < ext:
+                    early.append("scan ends when %s reaches %d" % (iv, max(bound)))
+            else:
+                early.append("scan ends after an empty queue%s" % (
+                    " under %s" % sorted(("" if pl else "!") + t for t, pl in lits) if lits else " unconditionally"))
+    good_step = {(("++", 1),), (("+=", 1),)}
+    desc = sorted(str(list(x)) for x in steps)
+    if steps and not steps <= good_step:
+        down = all(len(x) == 1 and x[0][0] in ("--", "-=") for x in steps)
+        if not down and not all(len(x) == 1 and x[0][0] in ("++", "--", "+=", "-=") and isinstance(x[0][1], int) for x in steps):
+            raise AnalysisError("%s(): queue counter `%s` is updated by %s between two dequeues -- unclassifiable"
+                                % (TX_FN, iv, desc))
+    L.ob(R, F, TX_FN, "transmit queues are scanned in ascending DLCI order starting at queue 0 (lower DLCI first)",
+         "first index 0; +1 after every empty queue", "first index %s; counter updates %s" % (sorted(first, key=str), desc),
+         first == {0} and bool(steps) and steps <= good_step, line)
+    L.require(R, F, TX_FN, "every queue is examined: without a message the scan ends only behind the last queue "
+              "(index %d)" % (ext - 1), [], sorted(set(early)), line=line)
+    # after a message was found (first and every later iteration)
+    for outcomes in ([True], [False, True]):
+        k = len(outcomes)
+        for p in walk_scan(outcomes):
+            seg = segment(p, k)
+            if seg is None:
+                continue
+            if truncated(seg):
+                continue
+            if any(e[0] == "again" for e in seg):
+                overrun.append("another queue is dequeued after a message was found")
+            if any(e[0] == "store" and e[1] == TXM for e in seg):
+                overrun.append("%s overwritten after a message was found" % TXM)
+    L.require(R, F, TX_FN, "the scan stops at the first non-empty queue: nothing more is dequeued and the message found "
+              "is kept (a queue is reached only after every lower one returned NULL)", [], sorted(set(overrun)), line=line)
+
+
+def ctext_term(t):
+    return t[1] if len(t) > 1 else t[0]
 
 
 def r4_msgb(L):
@@ -1745,6 +1966,7 @@ def run(L, tier):
         rx = Rx(tu)
         tx = Tx(tu)
         r1_bounded_store(L, tu, tag, size, rx)
+        r1_capacity(L, tu, tag, size)
         K = r2_tx(L, tu, tag, tx)
         if K is None:
             continue        # the transmitter's shape is already reported as violated
